@@ -377,7 +377,10 @@ func genOrder(r *rng) (*AWf, map[string]Behaviour, map[string]any) {
 		stopSrc := -1
 		if r.chance(5, 6) {
 			stopSrc = r.intn(3)
-			switch r.intn(3) {
+			switch r.intn(4) {
+			case 3:
+				// an EMPTY object is a value too: the engine-generated `started` output has no fields
+				f["stop_if"] = expr(fmt.Sprintf("$.steps.src%d.starting.started", stopSrc))
 			case 0:
 				f["stop_if"] = expr(fmt.Sprintf("$.steps.src%d.outputs", stopSrc))
 			case 1:
